@@ -54,7 +54,9 @@ Structure(TT, pk, c0) ==
   /\ V("GROWTH", GrowthOK(TT, IF gaps THEN Max(pk, rpeak) ELSE pk, c0), <<"arena slots", Len(TT.nd), "peak stored", IF gaps THEN Max(pk, rpeak) ELSE pk>>)
 
 \* refinement mapping on the snapshot: live physical entries = live reference entries
-Refines(TT, S, t) == RangeOK(TT) /\ R!LiveAt(Phys(TT), t) = R!LiveAt(S, t)
+\* (the count excludes a live entry that is stored twice)
+Refines(TT, S, t) == /\ RangeOK(TT) /\ R!LiveAt(Phys(TT), t) = R!LiveAt(S, t)
+                     /\ Cardinality({i \in Reach(TT) : TT.nd[i + 1].e > t}) = Cardinality(R!LiveAt(S, t))
 
 ObsSet == {<<Ev.obs[i][1], Ev.obs[i][2]>> : i \in 1..Len(Ev.obs)}
 Visible(S, t) == {<<x.k, x.v>> : x \in R!LiveAt(S, t)}
